@@ -13,13 +13,19 @@ THEOREMS = [
     "C07.included_only_first_partial", "C07.parent_builds_nearest", "C07.included_first_reported_partial",
     "C07.bump_build_reported_partial", "C07.reported_bump", "C07.skipped_version",
     "C07.included_first_spec_partial", "C07.included_first_exists_partial", "C07.included_first_git_partial",
+    "C07.pending_from_latest", "C07.pending_bump_from_pin",
     "C07.analysis_total", "C07.skipped_not_member", "C07.saved_detector", "C07.analysis_registrations",
 ]
 TEXT = "BUG-9"
 NAMES = ["app", "core", "lib", "mid", "util", "zeta"]        # repository id = position (sorted() order of the names)
 RULE = ("col: 2-3 repositories (app->lib; app->lib,util; app->mid->lib), component with 1-2 release lines and merges, parent "
         "branches forking/merging, pins moving by 0-2 component builds and never decreasing along a path (25%: the oldest "
-        "parent commits pin a version that is no build tag), tags on half the commits, commit times tight (25%), spread "
+        "parent commits pin a version that is no build tag); in 60% of the components with two lines no matching commit lies below the fork (the rest shows the known finding "
+        "cross_line_pin; those scenarios come last in the stream); forked-lines: a component whose 2nd/3rd release line forks from the "
+        "first, pins contained in one another by git ancestry that stay in a line or move on to the forked one (also in one "
+        "jump to the newest builds); 25% of the owners (`app`, nobody's component) have build numbers that do NOT grow along "
+        "their history: the first builds made by the master job and numbered from a VERSION file above the release line, a "
+        "build counter running down, or in an order of its own, tags on half the commits, commit times tight (25%), spread "
         "inside the windows (40%), component builds days apart in any order w.r.t. its branches with the owner starting right "
         "inside the 1-day component cut-off of the oldest build the component must report (25%: a fix built on the newer "
         "line, backported later) or anywhere (10%, mostly not judged), both supply orders; ord: random dependency graphs over <=6 repositories incl. cycles, self-dependencies and "
@@ -45,8 +51,9 @@ ASSUMPTIONS = ["repositories that keep their build number in a file (RepoBuildsB
                "younger commit, no parent commit a day or more older than the oldest build the component's report must show - the "
                "earliest builds containing a matching commit, computed from the history (Hist.InWindow, "
                "CompWindow in the theorems; outside, model and code are compared, the oracle does not judge)",
-               "component build numbers increase along history; pins never decrease along a path, read as containment: the newly "
-               "pinned component build contains the previously pinned one, a pin that names no build of the component (unknown "
+               "component build numbers increase along history (parent build numbers need not: generated in any order); pins never "
+               "decrease along a path, read as containment by git ancestry in the component: the newly pinned component build "
+               "contains the previously pinned one - inside a release line or on a line forked from it -, a pin that names no build of the component (unknown "
                "version) ships nothing and may only come before pins that name builds (scenarios with incomparable "
                "consecutive pins, tag 'pin-crosses-parallel-builds', are compared with the model but not judged)",
                "ASCII ref names; fewer than 10^9 report commits per repository"]
@@ -308,7 +315,11 @@ def oracle(case, replies):
             if not rep.startswith("ok"):
                 return "crash: the report is not produced (%s)" % rep
             order, reports = parse_col(rep)
-            msg = check_order(order, deps) or (check_included(repos, reports) if in_windows(repos) else None)
+            msg = check_order(order, deps)
+            if msg is None and in_windows(repos):
+                msg = check_included(repos, reports)
+                if msg is None or msg.startswith(CROSS):
+                    msg = check_pending(repos, reports) or msg
             if msg:
                 return msg
     return None
@@ -429,6 +440,73 @@ def pins_cross(owner, comp):
     return False
 
 
+def numbers_not_monotone(h):
+    """some build of the history has a smaller number than a build among its ancestors"""
+    cs = h["commits"]
+    for i, c in enumerate(cs):
+        if c["t"] and not any("?" in b for b in c["t"]):
+            lo = min(tuple(b) for b in c["t"])          # the number of a build is the smallest of its tags
+            for a in G.anc(h, i):
+                if a != i and cs[a]["t"] and not any("?" in b for b in cs[a]["t"]) and min(tuple(b) for b in cs[a]["t"]) > lo:
+                    return True
+    return False
+
+
+def pin_changes_line(owner, comp):
+    """along the owner's history the pinned component commit moves from one release line of the component to another"""
+    ch = comp["hist"]
+    if single_line(ch):
+        return False
+    lines = line_of(ch)
+    if lines is None:
+        return False
+    v2c = ver_to_commit(ch)
+    cs = owner["hist"]["commits"]
+    ln = [lines.get(v2c.get(tuple(c.get("pins", {}).get(comp["name"], ())))) for c in cs]
+    return any(ln[i] is not None and ln[p] is not None and ln[p] != ln[i] for i, c in enumerate(cs) for p in c["p"])
+
+
+def cross_shape(repos):
+    """the shape of the known finding `cross_line_pin`, read off the scenario alone: some parent commit pins a build of
+    the component whose commit has, among its git ancestors, a build with a matching commit at or below it that lies on
+    another release line"""
+    by = {r["name"]: r for r in repos}
+    for r in repos:
+        for d in r["deps"]:
+            comp = by.get(d)
+            if comp is None or comp.get("skipped") or single_line(comp["hist"]):
+                continue
+            ch = comp["hist"]
+            lines = line_of(ch)
+            if lines is None:
+                continue
+            v2c = ver_to_commit(ch)
+            cs = ch["commits"]
+            rep_ = [i for i, c in enumerate(cs) if c["t"] and any(cs[a]["m"] for a in G.anc(ch, i))]
+            for c in r["hist"]["commits"]:
+                pc = v2c.get(tuple(c.get("pins", {}).get(d, ())))
+                if pc is not None and pc in lines:
+                    apc = G.anc(ch, pc)
+                    if any(R in apc and lines.get(R) != lines[pc] for R in rep_):
+                        return True
+    return False
+
+
+def clean_forks(commits, heads):
+    """no matching commit below the point where a release line forks from another one: the older line has no
+    report-related build that the younger line contains"""
+    h = {"commits": commits}
+    for k, (name, hd) in enumerate(heads):
+        own = [i for i, c in enumerate(commits) if c["line"] == name]
+        if not own:
+            continue
+        first = min(own)
+        for p in commits[first]["p"]:
+            if commits[p]["line"] != name:
+                for a in G.anc(h, p):
+                    commits[a]["m"] = 0
+
+
 def known_pin_cross(case):
     line = case["lines"][0]
     if not line.startswith("col"):
@@ -462,8 +540,23 @@ def known_component_merges(case):
     return any(d in byname and has_merge(byname[d]["hist"]) for r in repos for d in r["deps"])
 
 
+def fail_kind(case):
+    """kind of the oracle's verdict on the real code's answer to the case (None: no failure)"""
+    msg = oracle(case, impl(case))
+    return msg.split(":")[0] if msg else None
+
+
+def known_cross_line_pin(case):
+    """the ONLY thing the oracle finds on this case is the shape of the known finding: an included_at entry (or the
+    parent build carrying it) is missing for a component build that lies on another release line than the pinned
+    commit and is a git ancestor of it.  The oracle reports every other difference first (another included_at error,
+    a doubled entry, a wrong pending bump ... in the same scenario), so those stay violations."""
+    return case["lines"][0].startswith("col") and fail_kind(case) == CROSS
+
+
 KNOWN = {"pin-crosses-parallel-component-builds": known_pin_cross,
-         "component-history-with-merges": known_component_merges}
+         "component-history-with-merges": known_component_merges,
+         "cross_line_pin": known_cross_line_pin}
 # Component lines with merges (diamonds of reported builds) are judged: the defect found there was repaired by
 # 88b742a.  Scenarios whose consecutive pins are incomparable in the component history are outside the quantifier
 # ("the pinned version never decreases along a path" = the newly pinned build contains the previously pinned one):
@@ -472,12 +565,14 @@ STRICT_PINS = False
 STRICT_MERGES = True
 
 
-def check_included(repos, reports):
-    """included_at(R) for parent branch P = the minimal (w.r.t. ancestry) own builds / unbuilt head of P whose pinned
-    version contains R.  Components with several release lines: judged per line, when the pins of a parent branch stay
-    inside one line (a build of a line is shipped by the versions of that line)."""
+def comp_views(repos, reports):
+    """every (component, owners) pair the oracle judges, with the owner branches in the order of the statement:
+    yields (comp, cid, lines, reported, ver2commit, [(owner, oid, orep, [(branch, head, elig, pinc)])]).
+    `lines`: commit -> release line of the component (None for a component with one release line); `reported`:
+    commit of a reported component build -> its included_at entries; `elig`: the commits of the branch that are builds
+    or its unbuilt head (tagged or head, new in the branch); `pinc`: eligible commit -> the component commit whose
+    build tag it pins (None: a version that is no build tag of the component)."""
     from harness.c06 import spec_order
-    byname = {r["name"]: r for r in repos}
     for comp in repos:
         ch = comp["hist"]
         cid = NAMES.index(comp["name"])
@@ -500,9 +595,7 @@ def check_included(repos, reports):
                 if bc is not None:
                     reported[bc] = incl
         ver2commit = ver_to_commit(ch)
-        canc = {}
-        exp = {R: set() for R in reported if ch["commits"][R]["t"]}
-        judged = True
+        judged, views = True, []
         for owner in owners:
             oh = owner["hist"]
             order = spec_order(oh["refs"])
@@ -511,7 +604,7 @@ def check_included(repos, reports):
                 break
             oid = NAMES.index(owner["name"])
             orep = dict(reports.get(oid, []))
-            seen = set()
+            seen, brs = set(), []
             for bname, head in order:
                 A = G.anc(oh, head)
                 elig = {c for c in A - seen if oh["commits"][c]["t"] or c == head}
@@ -527,20 +620,40 @@ def check_included(repos, reports):
                         ac = G.anc(oh, c)
                         if any(c2 != c and c2 in ac and pinc[c2] is not None for c2 in elig):
                             judged = False      # outside the quantifier: the pin goes back to a version that names nothing
-                line = None
-                if judged and lines is not None:
-                    # several release lines: judged when the pins of the branch stay inside one of them - the builds
-                    # of that line are shipped, builds of other lines are never shipped by this branch
-                    ks = {lines.get(pc) for pc in pinc.values() if pc is not None}
-                    if len(ks) > 1 or None in ks:
-                        judged = False
-                    elif ks:
-                        line = ks.pop()
+                if judged and lines is not None and any(pc is not None and pc not in lines for pc in pinc.values()):
+                    judged = False              # a pinned commit that no release line of the component reaches
                 if not judged:
                     break
+                brs.append((bname, head, elig, pinc))
+                seen |= A
+            if not judged:
+                break
+            views.append((owner, oid, orep, brs))
+        if judged:
+            yield comp, cid, lines, reported, ver2commit, views
+
+
+CROSS = "cross-line-pin"
+
+
+def check_included(repos, reports):
+    """included_at(R) for parent branch P = the minimal (w.r.t. ancestry) own builds / unbuilt head of P whose pinned
+    version contains R, containment = git ancestry in the component: R's commit is the pinned commit or an ancestor of
+    it, whatever release lines of the component the two lie on (the pin may stay in a line forked above R, or move to a
+    line forked from the old one).  An expected entry that is missing where R lies on another release line than the
+    pinned commit is reported under the kind CROSS (known finding `cross_line_pin`: the code links component builds
+    inside one release line only); everything else - and any other difference in the same scenario - under its own
+    kind, first."""
+    soft = None
+    for comp, cid, lines, reported, ver2commit, views in comp_views(repos, reports):
+        ch = comp["hist"]
+        canc = {}
+        exp = {R: set() for R in reported if ch["commits"][R]["t"]}
+        xexp = {R: set() for R in exp}          # expected by git ancestry across release lines
+        for owner, oid, orep, brs in views:
+            oh = owner["hist"]
+            for bname, head, elig, pinc in brs:
                 for R in exp:
-                    if lines is not None and lines.get(R) != line:
-                        continue
                     cont = set()
                     for c in elig:
                         pc = pinc[c]
@@ -556,23 +669,103 @@ def check_included(repos, reports):
                             continue
                         tags = oh["commits"][c]["t"]
                         bn = tuple(min(tags)) if tags else (8888, 8888, 8888, 8888)
-                        exp[R].add((str(oid), bname, G.show_bn(bn)))
+                        cross = lines is not None and lines.get(R) != lines.get(pinc[c])
+                        (xexp if cross else exp)[R].add((str(oid), bname, G.show_bn(bn)))
                         # the parent build itself must be reported
                         if not any(bc == c for kind, _, bc, _, _, _ in orep.get(bname, [])):
-                            return "bump-build-missing: build at commit %d of %s/%s first ships %s build %d but is not reported" % (
+                            msg = "build at commit %d of %s/%s first ships %s build %d but is not reported" % (
                                 c, owner["name"], bname, comp["name"], R)
-                seen |= A
-            if not judged:
-                break
-        if not judged:
-            continue
+                            if not cross:
+                                return "bump-build-missing: " + msg
+                            soft = soft or "%s: %s (the build lies on another release line than the pinned commit)" % (CROSS, msg)
         for R in exp:
             got = [(a, dec_str(b), c) for a, b, c in reported[R]]
             if len(set(got)) != len(got):
                 return "included-twice: %s build at commit %d lists a parent build twice: %s" % (comp["name"], R, got)
-            if set(got) != exp[R]:
+            if set(got) - xexp[R] != exp[R]:
                 return "included-at: %s build at commit %d is included at %s, expected %s" % (
-                    comp["name"], R, sorted(got), sorted(exp[R]))
+                    comp["name"], R, sorted(got), sorted(exp[R] | xexp[R]))
+            if xexp[R] - set(got):
+                soft = soft or ("%s: %s build at commit %d is included at %s, expected %s: it lies on another release line "
+                                "than the pinned commits that contain it" % (CROSS, comp["name"], R, sorted(got),
+                                                                            sorted(exp[R] | xexp[R])))
+    return soft
+
+
+def pending_of(builds, cid):
+    """(to, [from ...]) of the bump of component `cid` in the 'not merged' pseudo build of a reported branch, or None"""
+    for kind, bn, bc, cs, bumps, incl in builds:
+        if kind != "M":
+            continue
+        for b in bumps:
+            c, rest = b.split(">")
+            if int(c) == cid:
+                to, frm = rest.split("<")
+                return to, ([] if frm == "-" else frm.split("/"))
+    return None
+
+
+def check_pending(repos, reports, stats=None):
+    """pending bumps of the 'not merged' pseudo build of a parent branch: the component builds that no build of the
+    branch ships yet.  Judged for a branch with exactly one last reported build B (no other reported build of the
+    branch has B among its ancestors - whatever the build NUMBERS are):
+    * a pending bump starts from the version pinned in B's commit;
+    * when the version pinned in B contains reported builds of one release line of the component only, and the
+      component's report of that line has one last build L and no pseudo build of its own: the pending bump exists
+      exactly when L is not contained in the pinned version, and leads to L."""
+    from harness.c06 import spec_order
+    for comp, cid, lines, reported, ver2commit, views in comp_views(repos, reports):
+        ch = comp["hist"]
+        creps = dict(reports[cid])
+        corder = spec_order(ch["refs"])
+        for owner, oid, orep, brs in views:
+            oh = owner["hist"]
+            for bname, head, elig, pinc in brs:
+                builds = orep.get(bname)
+                if not builds:
+                    continue
+                real = [bc for kind, bn, bc, cs, bumps, incl in builds if kind == "N" and bc is not None]
+                ancs = {bc: G.anc(oh, bc) for bc in real}
+                last = [bc for bc in real if not any(b2 != bc and bc in ancs[b2] for b2 in real)]
+                if len(last) != 1 or last[0] not in pinc:
+                    continue
+                B = last[0]
+                v = oh["commits"][B]["pins"][comp["name"]]
+                pend = pending_of(builds, cid)
+                where = "%s/%s (last build at commit %d pins %s %s)" % (owner["name"], bname, B, comp["name"], G.show_bn(v))
+                if stats is not None:
+                    stats.append("pending-judged" if pend else "no-pending-judged")
+                if pend is not None and pend[1] != [G.show_bn(list(v) + [v[2]])]:
+                    return "pending-from: the pending bump of %s starts from %s" % (where, "/".join(pend[1]) or "-")
+                pc = pinc[B]
+                if pc is None or corder is None:
+                    continue
+                apc = G.anc(ch, pc)
+                below = [R for R in reported if R in apc]
+                if not below:
+                    continue                    # the pinned version names no reported build
+                if lines is not None and any(lines.get(R) != lines.get(pc) for R in below):
+                    continue                    # see CROSS
+                cname = corder[lines[pc] if lines is not None else 0][0]
+                cb = creps.get(cname)
+                if not cb or any(k == "M" for k, *_ in cb):
+                    continue
+                creal = [(bn, bc) for kind, bn, bc, cs, bumps, incl in cb if bc is not None]
+                cancs = {bc: G.anc(ch, bc) for _, bc in creal}
+                clast = [(bn, bc) for bn, bc in creal if not any(b2 != bc and bc in cancs[b2] for _, b2 in creal)]
+                if len(clast) != 1:
+                    continue
+                Lbn, L = clast[0]
+                if L in apc:
+                    if pend is not None:
+                        return "pending-spurious: %s has a pending bump to %s although the pinned version contains every " \
+                               "reported build of %s" % (where, pend[0], cname)
+                elif pend is None:
+                    return "pending-missing: %s has no pending bump although %s build at commit %d is shipped by no build " \
+                           "of the branch" % (where, comp["name"], L)
+                elif pend[0] != G.show_bn(Lbn):
+                    return "pending-to: the pending bump of %s leads to %s, the last build of %s is %s" % (
+                        where, pend[0], cname, G.show_bn(Lbn))
     return None
 
 
@@ -614,6 +807,8 @@ def ver_of(name):
 def cver(c):
     """(major, minor) of the builds made from the commit: the release line's, or what the version file of a master-built
     repository says at that commit"""
+    if c.get("mv"):
+        return tuple(c["mv"])           # built by the master job before the release line got its own: VERSION file
     M, m = ver_of(c["line"])
     return (M, m + c.get("vb", 0)) if c["line"] in ("master", "main") else (M, m)
 
@@ -651,6 +846,31 @@ def boundary_values(rng, commits, heads):
             c["cb"] = base
 
 
+def unordered_numbers(rng, commits):
+    """build numbers of a parent repository that do NOT grow along its history (the quantifier asks for increasing
+    numbers in component histories only): the first builds of the repository made by the master job, numbered from the
+    VERSION file of the commit (a version above the release line's); a build counter that was reset and runs down; a
+    counter in an order of its own (builds of sub-branches numbered as they happened to finish)"""
+    n = len(commits)
+    mode = rng.choice(["master-first", "master-first", "counter-down", "counter-shuffled"])
+    if mode == "master-first":
+        k = rng.randint(1, max(1, (n + 1) // 2))        # ids below a bound are closed under git ancestry
+        mv = [rng.choice([60, 77, 98]), rng.randrange(4)]
+        for c in commits[:k]:
+            c["mv"] = mv
+            c["xl"] = False
+    elif mode == "counter-down":
+        for i, c in enumerate(commits):
+            c["cb"] = c.get("cb", 0) + 20 * (n - i)
+    else:
+        perm = list(range(n))
+        rng.shuffle(perm)
+        for i, c in enumerate(commits):
+            c["cb"] = c.get("cb", 0) + 10 * perm[i] - 10 * i + 10 * n
+            c["xl"] = False
+    return mode
+
+
 def to_saved(rng, commits, heads):
     """the repository keeps its build number in a file (RepoBuildsBySavedBuildNumDetector): a build is a commit that
     bumps the number; the roots and the branch heads are builds; a commit that is no build carries the number of one of
@@ -679,6 +899,7 @@ def finish_repo(commits, heads):
             # LOWER build counter - the order of the build numbers is not the order of the counters
             c["t"].append([M, m + 1, c.get("cb", 0) + 10 * i, c.get("cb", 0) + 10 * i])
         c.pop("line")
+        c.pop("mv", None)
         c.pop("two", None)
         c.pop("vb", None)
         c.pop("xl", None)
@@ -731,6 +952,45 @@ def add_pins_dag(rng, parent_commits, comp_name, comp_commits, comp_head, monoto
         c["pins"][comp_name] = [M, m, rng.choice(tag_nums(pin[i], comp_commits[pin[i]]))]
 
 
+def add_pins_contained(rng, parent_commits, comp_name, comp_commits, comp_heads, far=False):
+    """pins on a component with several release lines: the new pin always contains the pins of the parents by git
+    ancestry - it stays in its line, moves on to a line forked from it, or (`far`) jumps to the newest builds at once"""
+    ch = {"commits": comp_commits}
+    reach = set()
+    for _, hd in comp_heads:
+        reach |= G.anc(ch, hd)
+    builds = [i for i, c in enumerate(comp_commits) if c["tagged"] and i in reach]
+    ancs = {b: G.anc(ch, b) for b in builds}
+    pin = {}
+    for i, c in enumerate(parent_commits):
+        prev = [pin[p] for p in c["p"]]
+        cands = [b for b in builds if all(q in ancs[b] for q in prev)]
+        if not cands:
+            cands = [max(prev)]
+        elif far and rng.random() < 0.5:
+            cands = cands[-2:]
+        else:
+            cands = cands[:4]
+        pin[i] = rng.choice(cands)
+        M, m = cver(comp_commits[pin[i]])
+        c["pins"][comp_name] = [M, m, rng.choice(tag_nums(pin[i], comp_commits[pin[i]]))]
+
+
+def gen_forked_lib(rng):
+    """a component whose second (and third) release line forks from a commit of the first one"""
+    commits, heads = [], []
+    for k, name in enumerate(rng.choice([LIB_LINES[:2], LIB_LINES[:2], LIB_LINES])):
+        parent = rng.randrange(len(commits)) if commits else None
+        for _ in range(rng.randint(2, 4) if not commits else rng.randint(1, 3)):
+            cid = len(commits)
+            commits.append({"p": [parent] if parent is not None else [], "line": name, "tagged": rng.random() < 0.7,
+                            "m": 1 if rng.random() < 0.6 else 0, "pins": {}, "two": rng.random() < 0.2, "vb": 0,
+                            "xl": False})
+            parent = cid
+        heads.append([name, parent])
+    return commits, heads
+
+
 LIB_LINES = ["release/10.20", "release/10.21", "master"]
 APP_LINES = ["release/5.1", "release/5.2", "master"]
 MID_LINES = ["release/7.1", "release/7.3"]
@@ -742,6 +1002,8 @@ MID_LINES_W = ["release/7.9", "release/7.10"]
 def gen_col(rng, shape, lib_lines):
     if shape in ("dag-monotone", "dag-numeric", "dagapp-daglib"):
         lib, lheads = gen_dag_repo(rng, "release/10.20", rng.randint(4, 9))
+    elif shape == "forked-lines":
+        lib, lheads = gen_forked_lib(rng)
     elif shape == "dagapp-linlib":
         lib, lheads = gen_dag_repo(rng, "release/10.20", rng.randint(3, 7), ptag=0.9, pmatch=0.7, pmerge=0.0)
         for i, c in enumerate(lib):
@@ -749,6 +1011,8 @@ def gen_col(rng, shape, lib_lines):
     else:
         lib, lheads = gen_repo(rng, lib_lines, LIB_LINES if rng.random() < 0.8 else ["master"], pmerge=0.1)
     lib[0]["tagged"] = True
+    if len(lheads) > 1 and shape != "forked-lines" and rng.random() < 0.6:
+        clean_forks(lib, lheads)
     boundary_values(rng, lib, lheads)
     if shape.startswith("dagapp"):
         n = rng.randint(4, 9)
@@ -763,6 +1027,8 @@ def gen_col(rng, shape, lib_lines):
     else:
         app, aheads = gen_repo(rng, 3, APP_LINES if rng.random() < 0.5 else rng.choice(APP_LINES_W))
     boundary_values(rng, app, aheads)
+    if rng.random() < 0.25:
+        unordered_numbers(rng, app)     # `app` is nobody's component
     saved = set()
     if rng.random() < 0.25:
         saved.add("lib")
@@ -773,6 +1039,10 @@ def gen_col(rng, shape, lib_lines):
     repos = []
     if shape.startswith("dag"):
         add_pins_dag(rng, app, "lib", lib, lheads[0][1], monotone=(shape != "dag-numeric"))
+        repos = [{"name": "app", "deps": ["lib"], "hist": None}, {"name": "lib", "deps": [], "hist": None}]
+        raw = {"app": (app, aheads), "lib": (lib, lheads)}
+    elif shape == "forked-lines":
+        add_pins_contained(rng, app, "lib", lib, lheads, far=rng.random() < 0.4)
         repos = [{"name": "app", "deps": ["lib"], "hist": None}, {"name": "lib", "deps": [], "hist": None}]
         raw = {"app": (app, aheads), "lib": (lib, lheads)}
     elif shape == "app-lib":
@@ -929,15 +1199,27 @@ def gen_ord(rng, nmax=6):
 
 def gen_cases(rng, tier):
     n_col = 1500 if tier == "quick" else 30000
+    # components with one release line first: the scenarios with several lines often show the known finding
+    # `cross_line_pin`, and only the first failures of a run are minimised
     for k in range(n_col):
         shape = ["app-lib", "app-lib", "app-lib-util", "chain"][k % 4]
-        yield mk_case(gen_col(rng, shape, 1 if k % 3 else 2), shape + ("/1line" if k % 3 else "/2lines"), rng.choice(CFGS))
+        if k % 3:
+            yield mk_case(gen_col(rng, shape, 1), shape + "/1line", rng.choice(CFGS))
     for k in range(n_col // 2):
         shape = "dag-monotone" if k % 4 else "dag-numeric"
         yield mk_case(gen_col(rng, shape, 1), shape, rng.choice(CFGS))
     for k in range(n_col // 2):
         shape = "dagapp-linlib" if k % 3 else "dagapp-daglib"
         yield mk_case(gen_col(rng, shape, 1), shape, rng.choice(CFGS))
+    late = []
+    for k in range(0, n_col, 3):
+        shape = ["app-lib", "app-lib", "app-lib-util", "chain"][k % 4]
+        late.append((gen_col(rng, shape, 2), shape + "/2lines", rng.choice(CFGS)))
+    for k in range(n_col // 5):
+        late.append((gen_col(rng, "forked-lines", 2), "forked-lines", rng.choice(CFGS)))
+    late.sort(key=lambda x: cross_shape(x[0]))      # (stable) the scenarios with the shape of the known finding last
+    for repos, kind, cfg in late:
+        yield mk_case(repos, kind, cfg)
     for _ in range(3000 if tier == "quick" else 40000):
         yield gen_ord(rng)
 
@@ -959,6 +1241,51 @@ def search_cases(rng, tier):
 
 
 def shrink(case):
+    """smaller cases that keep the KIND of failure: a case that fails in another way than the known cross-line shape is
+    never reduced to one that shows only that shape (the known finding must not hide another error); a case that shows
+    only the known shape is not reduced at all (the matcher judges the case as generated)"""
+    col = case["lines"][0].startswith("col")
+    k0 = fail_kind(case) if col else None
+    if k0 == CROSS:
+        return
+    ok0 = col and well_formed(case)
+    for cand in shrink_raw(case):
+        if ok0 and not well_formed(cand):
+            continue                    # the smaller scenario must stay one the generators could have produced
+        if k0 is not None and fail_kind(cand) in (None, CROSS):
+            continue
+        yield cand
+
+
+def well_formed(case):
+    """what every generated scenario satisfies and a reduction must keep: a pinned version that is a build tag of the
+    component names a commit some release line of the component reaches (dropping a ref must not leave the pinned build
+    outside the component's report); in a repository that keeps its build number in a file the roots and the release
+    heads are builds (ASSUMPTIONS)"""
+    repos = [dec_repo(t) for t in case["lines"][0].split()[2:]]
+    by = {r["name"]: r for r in repos}
+    reach = {}
+    for r in repos:
+        h = r["hist"]
+        reach[r["name"]] = set()
+        for nm, hd in h["refs"]:
+            if nm in ("master", "main") or nm.startswith("release/"):
+                reach[r["name"]] |= G.anc(h, hd)
+                if r.get("mode") == "saved" and not h["commits"][hd]["t"]:
+                    return False
+    for r in repos:
+        for d in r["deps"]:
+            if d not in by or by[d].get("skipped"):
+                continue
+            v2c = ver_to_commit(by[d]["hist"])
+            for c in r["hist"]["commits"]:
+                v = c.get("pins", {}).get(d)
+                if v is not None and tuple(v) in v2c and v2c[tuple(v)] not in reach[d]:
+                    return False
+    return True
+
+
+def shrink_raw(case):
     line = case["lines"][0]
     op, *args = line.split()
     meta = dict(case.get("meta", {}))
@@ -999,7 +1326,7 @@ def shrink(case):
             if c["m"]:
                 cs = h["commits"][:k] + [dict(c, m=0)] + h["commits"][k + 1:]
                 yield mk(repos[:ri] + [dict(r, hist={"commits": cs, "refs": h["refs"]})] + repos[ri + 1:])
-            if c["t"]:
+            if c["t"] and r.get("mode") != "saved":      # (the builds of a saved-number repository are no tags)
                 used = any(tuple(c2.get("pins", {}).get(r["name"], [])) in [tuple(bn[:3]) for bn in c["t"]]
                            for o in repos for c2 in o["hist"]["commits"])
                 if not used:
@@ -1050,6 +1377,28 @@ def corpus():
             "refs": [["release/5.9", 2]]}
     out.append(mk_case([{"name": "app", "deps": ["lib"], "hist": app3}, {"name": "lib", "deps": [], "hist": lib3}],
                        "corpus-backport-days-later"))
+    # known finding cross_line_pin: the pin moves from release/10.20 to release/10.21, forked from it above 10.20.3 -
+    # lib 10.20.2 and 10.20.3 are shipped by app 5.1.2 (git ancestors of 10.21.5) and registered nowhere
+    lib4 = {"commits": [{"p": [], "t": [[10, 20, 1, 1]], "m": 1, "pins": {}}, {"p": [0], "t": [[10, 20, 2, 2]], "m": 1, "pins": {}},
+                        {"p": [1], "t": [[10, 20, 3, 3]], "m": 1, "pins": {}}, {"p": [2], "t": [[10, 20, 4, 4]], "m": 1, "pins": {}},
+                        {"p": [2], "t": [[10, 21, 5, 5]], "m": 1, "pins": {}}],
+            "refs": [["release/10.20", 3], ["release/10.21", 4]]}
+    app4 = {"commits": [{"p": [], "t": [[5, 1, 1, 1]], "m": 0, "pins": {"lib": [10, 20, 1]}},
+                        {"p": [0], "t": [[5, 1, 2, 2]], "m": 0, "pins": {"lib": [10, 21, 5]}}],
+            "refs": [["release/5.1", 1]]}
+    out.append(mk_case([{"name": "app", "deps": ["lib"], "hist": app4}, {"name": "lib", "deps": [], "hist": lib4}],
+                       "corpus-cross-line-pin"))
+    # parent build numbers that go down along the history: release/5.1 starts with a build of the master job (60.2.5,
+    # numbered from the VERSION file), then 5.1.1; lib 10.20.4 is pinned by nobody: the pending bump of the pseudo build
+    # starts from the pin of the LAST build (10.20.3), not from the pin of the build with the greatest number
+    lib5 = {"commits": [{"p": [i - 1] if i else [], "t": [[10, 20, i + 1, i + 1]], "m": 1, "pins": {}} for i in range(4)],
+            "refs": [["release/10.20", 3]]}
+    for first_pin, m0 in (([10, 20, 2], 0), ([10, 20, 1], 1)):
+        app5 = {"commits": [{"p": [], "t": [[60, 2, 5, 5]], "m": m0, "pins": {"lib": first_pin}},
+                            {"p": [0], "t": [[5, 1, 1, 1]], "m": 0, "pins": {"lib": [10, 20, 3]}}],
+                "refs": [["release/5.1", 1]]}
+        out.append(mk_case([{"name": "app", "deps": ["lib"], "hist": app5}, {"name": "lib", "deps": [], "hist": lib5}],
+                           "corpus-parent-numbers-go-down"))
     return out
 
 
@@ -1074,6 +1423,13 @@ def tags(case, replies):
         elif any(max(c["ts"] for c in r["hist"]["commits"]) - min(c["ts"] for c in r["hist"]["commits"]) > G.DAY
                  for r in rs if r["hist"]["commits"]):
             yield "times-spread>1day"
+        if any(numbers_not_monotone(r["hist"]) for r in rs if r["deps"]):
+            yield "parent-build-numbers-not-monotone"
+        byn = {r["name"]: r for r in rs}
+        if any(d in byn and pin_changes_line(r, byn[d]) for r in rs for d in r["deps"]):
+            yield "pin-moves-to-another-release-line"
+        if cross_shape(rs):
+            yield "cross-line-shape(known finding)"
         if known_pin_cross(case):
             yield "pin-crosses-parallel-builds(not judged)"
         elif known_component_merges(case):
@@ -1093,6 +1449,11 @@ def tags(case, replies):
             yield "has-pending-bump"
         if any(len(b[5]) > 1 for bl in reports.values() for _, bs in bl for b in bs):
             yield "included-at>1"
+        if in_windows(rs):
+            st = []
+            check_pending(rs, reports, st)
+            for t in sorted(set(st)):
+                yield t
 
 
 LEVEL_TEXT = ("Repository ordering is fully proved on the model the driver runs (the DFS of ReposCollection.__init__ with its "
@@ -1101,20 +1462,27 @@ LEVEL_TEXT = ("Repository ordering is fully proved on the model the driver runs 
               "graphs incl. self-dependencies (cycle_rejected) and nothing else can happen (repo_order_total). The whole "
               "multi-repository analysis is total (analysis_total): a dependency cycle's ValueError or the reports, none of the "
               "code's KeyError/AttributeError/TypeError/assertions is reachable, whatever the commit times, the pinned versions "
-              "(known or not) and the build graphs are. An entry skipped by the constructor is no member of the collection (skipped_not_member), the saved-number builds "
+              "(known or not) and the build graphs are. An entry skipped by the constructor is no member of the collection (skipped_not_member restates the model's "
+              "definition of the kept entries from the flag 'has a repository class', which is harness data: that the "
+              "constructor skips exactly those entries rests on the tie), the saved-number builds "
               "detector makes a commit a build exactly when its number differs from every parent's (saved_detector). What the "
               "driver prints is linked to the objects of the theorems by analysis_registrations (the "
               "graphs are rgraph of each history with the plug of the components analysed before, the printed included_at "
-              "entries are exactly the results of regsOfBuild); the hypotheses of the conditional theorems are shown to be "
-              "satisfiable, with a non-empty set of registrations, on a concrete diamond scenario (examples at the end of "
-              "Props/C07.lean). For included_at and bumps the clause is proved in git terms for a "
-              "(parent branch, component release line) pair (included_first_git_partial): a reported parent build registers a "
-              "reported component build exactly when the build's commit is a git ancestor of the component commit whose build "
+              "entries are exactly the results of regsOfBuild); the hypotheses of the conditional theorems - all hypotheses of "
+              "included_first_git_partial (PinsAt for both parent builds, hmonoC, TagsUnique, windows) as well as those of the "
+              "spec-level theorems - are instantiated, with a non-empty set of registrations, on a concrete diamond scenario "
+              "(examples at the end of Props/C07.lean). For included_at and bumps the clause is proved in git terms for a "
+              "(parent branch, component release line) pair (included_first_git_partial), 'contains' meaning containment INSIDE "
+              "that release line: a reported parent build registers a "
+              "reported component build of the line exactly when the build's commit is a git ancestor of the component commit whose build "
               "tag the parent build pins, and of no component commit pinned by an eligible parent commit properly below. "
               "Hypotheses = the quantifier: every eligible parent commit pins a build tag of a commit of that component "
               "branch (with or without a reported build below it) or a version that ships no reported build at all (another "
               "release line without report-related builds, or no build tag of the component); pins never go back along "
-              "ancestry; component build numbers are unique; commit times inside the cut-off windows (Hist.InWindow, "
+              "ancestry (a move to another release line with reported builds is not covered: there the code falls short of "
+              "the statement - a component build on another release line than the pinned commit is registered nowhere although "
+              "it is a git ancestor of it; known finding cross_line_pin, judged by the oracle with git ancestry and reported as "
+              "KNOWN-FINDING, every other difference in such a scenario stays a violation); component build numbers are unique; commit times inside the cut-off windows (Hist.InWindow, "
               "CompWindow — stated with the two cut-off periods the translator reads from ak/ghist.py). It rests on: the "
               "component's bn_map sends a tag to the reported build at or nearest below the tagged commit, names nothing when "
               "there is none, and containment in the component's report graph is git ancestry (Lemmas/GhistBnAll). Parent "
@@ -1130,11 +1498,18 @@ LEVEL_TEXT = ("Repository ordering is fully proved on the model the driver runs 
               "(included_first_partial, after the repair 88b742a); the stored bumps are the ones computed from the commit's pins, "
               "bn_map and the parent builds' bumps (bumps_recorded); what a parent build's version contains is not registered "
               "again at the next build (included_only_first_partial); an eligible commit that is not a reported build has only "
-              "trivial bumps (bump_build_reported_partial). The model has the commit times: the obsolete-branch test and the "
+              "trivial bumps (bump_build_reported_partial). Pending bumps of the 'not merged' pseudo build: they are computed from the bumps of the "
+              "LAST build of the branch - greatest iid, git ancestor of no other build of the branch - whatever the build "
+              "numbers are, and that build is the pseudo build's only parent (pending_from_latest); each pending bump starts "
+              "from the version that build pins and leads to the latest build of the component branch holding the pinned "
+              "build, and exists only when that is another build (pending_bump_from_pin); non-vacuity: a branch whose first "
+              "build is numbered 60.2.5 and whose last one 5.1.1 (example). The model has the commit times: the obsolete-branch test and the "
               "narrowing of the relevant components down the DFS (_get_relevant_cmpnts_names) are modelled and compared with "
               "the code inside and outside the windows. model = code is established by a differential run of the compiled "
               "model against the real ak.ghist on generated multi-repository scenarios, judged by an independent oracle "
-              "(minimal own builds whose pin contains the component build).")
+              "(minimal own builds whose pin contains the component build by git ancestry, across release lines too; pending "
+              "bump of a branch with one last reported build: starts from that build's pin, exists exactly when the last "
+              "build of the component's line is not contained in it, leads to it).")
 LEVEL_NOTE = ("Found and repaired while building this check: get_rbuilds_in_bump re-registered component builds contained in "
               "a previous version when the component history has a diamond of reported builds (fix 88b742a; witness in corpus(), "
               "pre-fix tree is caught with a concrete history). Quantifier reading agreed with the coordinator: 'the pinned "
@@ -1142,13 +1517,18 @@ LEVEL_NOTE = ("Found and repaired while building this check: get_rbuilds_in_bump
               "scenarios with incomparable consecutive pins (tag 'pin-crosses-parallel-builds') are compared with the model but "
               "not judged. Why theorems keep the _partial suffix: parent branches whose pins move from one component release line "
               "with reported builds to another one are not covered by the git-level theorem (the code links component builds "
-              "inside one release line only: such a parent build registers the builds of the new line; the statement of the "
-              "property does not spell this case out — the oracle judges components with several release lines per line, when "
-              "the pins of a parent branch stay inside one line, and leaves the other scenarios to the comparison with the "
-              "model); the spec-level theorems read 'never decreases' as containment, which "
-              "excludes such moves too. Trusted: Lean kernel, translator (constants incl. the two cut-off periods), adapter, mock "
-              "git, sampled correspondence (2-3 repositories, linear and DAG-shaped components and parents, 1-2 component release "
-              "lines, commits with two build tags, early pins of versions that are no build tag, commit times inside the "
+              "inside one release line only: such a parent build registers the builds of the new line and none of the old "
+              "line's builds that the new version contains by git ancestry - by the letter of the statement a violation, "
+              "recorded as known finding cross_line_pin (witness in corpus()); the oracle judges every scenario whose pins are "
+              "contained in one another by git ancestry, whatever lines they lie on, and the matcher KNOWN['cross_line_pin'] "
+              "accepts a case only when its sole failure is a missing entry for a build on another release line than the "
+              "pinned commit); the spec-level theorems read 'never decreases' as containment in the component's report graph, "
+              "which excludes such moves too. Round 8: the pending bumps of the pseudo build are judged (seed C07-m20: the "
+              "build with the greatest NUMBER taken for the last one) on parents whose build numbers go down or jump; "
+              "reductions of a failing case stay inside the generators' space (a pinned build stays reachable from a release "
+              "line, saved-number heads stay builds) and keep the kind of failure. Trusted: Lean kernel, translator (constants incl. the two cut-off periods), adapter, mock "
+              "git, sampled correspondence (2-3 repositories, linear and DAG-shaped components and parents, 1-3 component release "
+              "lines incl. forked ones, parent build numbers in any order, commits with two build tags, early pins of versions that are no build tag, commit times inside the "
               "windows (spread up to 29 days per repository) and 10% anywhere, both supply orders; dependency graphs over <=6 "
               "repositories). Tag names are parsed by the model (see C06.tag_*). Not modelled: repository names (ranks in "
               "sorted() order).")
